@@ -64,7 +64,7 @@ class TracedMech:
             prog = [d for d in en if self.w.is_progress(d)]
             if not prog:
                 break
-            faults = [d for d in en if d[0] == "leave" or (d[0] == "deliver" and len(d) > 3 and d[3] != "ok")]
+            faults = [d for d in en if d[0] == "leave" or (d[0] == "deliver" and len(d) > 3 and d[3] in ("create", "launch"))]
             wakes = [d for d in en if d[0] == "wakeup" and d[1] != self.w.M]
             resets = [d for d in en if d[0] == "rc" and d[1].startswith("reset")]
             joins = [d for d in en if d[0] == "join" and not self.w.is_progress(d)]
